@@ -202,6 +202,10 @@ class BackendHarness:
                                            f"fault={desc} victim={vdesc}", dict(sig, kind=kind, **extra)))
 
         if res[0] != "ok":
+            if self.short_writes and not inj and log.get("payload") is not None:
+                # nothing failed, the kernel merely took some writes in pieces: the request must still arrive whole
+                prop = "C13" if scen.CONN_TYPES[self.ct]["proto"] == "h2" else "C03"
+                viol(prop, "upload-body", f"after short writes the exchange did not complete ({res[0]}): bytes of the request were lost, repeated or reordered on the wire")
             if res[0] == "exc":
                 viol("C15", "program-error", f"caller program raised {exc_class(res[1])}: {res[1]}", leaked=exc_class(res[1]))
             else:
@@ -226,6 +230,9 @@ class BackendHarness:
                 viol("C15", "spurious-error", f"nothing failed but the call raised {exc_class(e)}: {e}")
         elif vic[2] != b"<victim>" and self.consume == "request":
             viol("C01", "wrong-body", f"victim got {vic[2]!r}")
+        if self.short_writes and not inj and log.get("payload") is not None and vic[0] == "exc":
+            prop = "C13" if scen.CONN_TYPES[self.ct]["proto"] == "h2" else "C03"
+            viol(prop, "upload-body", f"after short writes (no failure injected) the request failed with {exc_class(vic[1])}: {vic[1]}")
         # ---- the upload as the peer decoded it (short writes of the sync send loop must neither lose, repeat nor reorder bytes)
         if log.get("payload") is not None and vic[0] == "ok" and not inj:
             got = None
